@@ -374,13 +374,19 @@ func TestSignal(t *testing.T) {
 // ---------------------------------------------------------------- RefreshWorker
 
 type fakeClock struct {
-	log  *evlog
-	last chan time.Time
-	now  time.Time
+	log   *evlog
+	last  chan time.Time
+	now   time.Time
+	sched *fakeSchedule // when set: every delay asked of the clock must have been computed for the present reading
 }
 
 func (c *fakeClock) Now() time.Time { return c.now }
 func (c *fakeClock) After(d time.Duration) <-chan time.Time {
+	if c.sched != nil && c.sched.asked && !c.sched.askedAt.Equal(c.now) {
+		// a delay until the next schedule point is only right for the moment it was computed for (a worker built
+		// at 12:00:50 and started at 12:01:10 must not wait the 10 s that were left at 12:00:50)
+		c.log.add("After(%d) with a delay the schedule computed for %d s, the clock reads %d s", int64(d), c.sched.askedAt.Unix(), c.now.Unix())
+	}
 	c.log.add("after %d", int64(d))
 	c.last = make(chan time.Time, 1)
 	return c.last
@@ -391,6 +397,9 @@ type fakeSchedule struct {
 	n     int64
 	zero  bool // every second answer is exactly 0 ("due now"): still one After per refresh, still waits for the tick
 	clock *fakeClock
+	// the reading the last answer was computed for
+	askedAt time.Time
+	asked   bool
 }
 
 func (s *fakeSchedule) dur(n int64) int64 {
@@ -402,6 +411,7 @@ func (s *fakeSchedule) dur(n int64) int64 {
 
 func (s *fakeSchedule) UntilNext(now time.Time) time.Duration {
 	s.n++
+	s.askedAt, s.asked = now, true
 	// the schedule is asked about the present: the clock's reading at the time of the call (after the refresh
 	// that has just finished - refreshes take time), not a reading remembered from before
 	if s.clock != nil && !now.Equal(s.clock.now) {
@@ -556,6 +566,7 @@ func runRefresh(c refCase) (what string, checks int) {
 		defer cancelStart()
 		clock := &fakeClock{log: log, now: time.Unix(1000, 0)}
 		sched := &fakeSchedule{log: log, zero: c.ZeroDelays, clock: clock}
+		clock.sched = sched
 		cons := &fakeCons{log: log, parent: startCtx}
 		refr := &fakeRefresher{log: log, outcomes: outcomes, parkAt: -1, gate: make(chan struct{}), clock: clock}
 		if c.TickInFinal && c.OnShutdown {
@@ -580,6 +591,8 @@ func runRefresh(c refCase) (what string, checks int) {
 		} else {
 			conf.ErrorHandler, conf.ContextConstructor = poisonHandler{log}, nil
 		}
+		// time passes between construction and Start
+		clock.now = clock.now.Add(25 * time.Second)
 		if err := w.Start(startCtx); err != nil {
 			fail("Start returned %v", err)
 			return
